@@ -23,7 +23,10 @@ import json, re
 
 # ------------------------------------------------------------------ vocabulary
 FUNC_NAMES = ["Build", "Test", "Deploy", "Clean", "BuildAll", "HTMLDocs", "Lint", "Gen", "Install",
-              "Release", "Check", "Fmt", "Vet", "Docs", "Run", "B", "X86Asm"]
+              "Release", "Check", "Fmt", "Vet", "Docs", "Run", "B", "X86Asm",
+              # initial letters spread over the alphabet: local and imported names interleave when sorted
+              "Apply", "Audit", "Cover", "Export", "Juggle", "Kill", "Migrate", "Notify", "Open", "Pack", "Query",
+              "Seed", "Sync", "Tidy", "Upload", "Watch", "Yank", "Zip", "ZZTop", "Aa"]
 NS_NAMES = ["Docker", "Ns", "DB", "Tools", "K8s", "Go"]
 ALIASES = ["tools", "ci", "Ops", "x", "dk", "Lib", "NS2", "a-b", "v1.2", "go_x", "Tools", "docker"]
 SIGS = ["plain", "err", "ctx"]
@@ -330,13 +333,13 @@ def gen_funcs(rng, pool, n):
     return [{"name": nm, "sig": rng.choice(SIGS)} for nm in rng.sample(pool, n)]
 
 
-def gen_package(rng, i, shape=None):
+def gen_package(rng, i, shape=None, nfuncs=None):
     """shape: funcs (only plain functions) | both | ns (ALL targets are namespace methods, one or
     several namespace types, no exported plain function at all) | ns+helper (namespace methods plus an
     exported function that is no target) | empty (no targets at all)"""
     shape = shape or rng.choice(["funcs"] * 6 + ["both"] * 4 + ["ns", "ns", "ns+helper", "ns+helper", "empty"])
     pk = {"dir": "imp/p%d" % i, "pkg": rng.choice(["p%d" % i, "tools", "lib", "build"]) if rng.random() < 0.3 else "p%d" % i,
-          "funcs": [] if shape in ("ns", "ns+helper", "empty") else gen_funcs(rng, FUNC_NAMES, rng.choice([1, 1, 2, 2, 3])),
+          "funcs": [] if shape in ("ns", "ns+helper", "empty") else gen_funcs(rng, FUNC_NAMES, nfuncs if nfuncs is not None else rng.choice([1, 1, 2, 2, 3])),
           "ns": [], "default": None, "aliases": {}, "shape": shape,
           "unexported": rng.sample(["helper", "build", "run"], rng.choice([0, 1, 2])),
           "nontarget": shape == "ns+helper" or (shape in ("funcs", "both") and rng.random() < 0.3), "nested": None}
@@ -422,11 +425,12 @@ def gen_spec(rng, pkg, placement, n_pre, kind, position="last", alias=None, sp=N
     return s
 
 
-def assemble(rng, name, layout, specs, npk, odd=False):
-    """put the specs (each importing its own package unless it says otherwise) into files and declarations"""
+def assemble(rng, name, layout, specs, npk, odd=False, nlocal=None):
+    """put the specs (each importing its own package unless it says otherwise) into files and declarations.
+    nlocal: exactly that many local targets (plain functions, no namespace)"""
     proj = {"name": name, "layout": layout, "odd": odd, "packages": [gen_package(rng, i) for i in range(npk)],
-            "local": {"funcs": gen_funcs(rng, FUNC_NAMES, rng.choice([0, 1, 2, 3])), "ns": [], "default": None}, "files": []}
-    if rng.random() < 0.5:
+            "local": {"funcs": gen_funcs(rng, FUNC_NAMES, nlocal if nlocal is not None else rng.choice([0, 1, 2, 3, 3, 4, 5])), "ns": [], "default": None}, "files": []}
+    if nlocal is None and rng.random() < 0.5:
         proj["local"]["ns"].append({"name": rng.choice(NS_NAMES), "methods": gen_funcs(rng, FUNC_NAMES, rng.choice([1, 2]))})
     if proj["local"]["funcs"] and rng.random() < 0.4:
         proj["local"]["default"] = proj["local"]["funcs"][0]["name"]
